@@ -380,7 +380,7 @@ class FrequencyBand(str, Enum):
         K: 20.0 * 1e9,
         Ka: 30.0 * 1e9,
         V: 60.0 * 1e9,
-        W: 15.0 * 1e9,
+        W: 92.5 * 1e9,
     }) -> float:
         """float: Mean frequency of the enumerated band."""
         return _mapping[self]
